@@ -1,0 +1,42 @@
+//go:build verif
+
+package req
+
+import (
+	"context"
+	"io"
+	"net/http"
+)
+
+// Verification hooks for property C15 (charset auto-decoding). Add-only, build tag verif.
+
+// VerifAutoDecodeResponseBody runs the transport's charset auto-decode decision on res
+// (exactly what Transport.RoundTrip does after a round trip) and installs the reader.
+func (t *Transport) VerifAutoDecodeResponseBody(res *http.Response) { t.autoDecodeResponseBody(res) }
+
+// VerifAutoDecodeReader wraps body in the sniffing reader installed when Content-Type names no charset.
+func VerifAutoDecodeReader(body io.ReadCloser, t *Transport) io.ReadCloser {
+	return newAutoDecodeReadCloser(body, t)
+}
+
+// VerifAutoDecodeState reports which reader autoDecodeResponseBody installed and, for the sniffing
+// reader, its one-shot detection state: kind is "sniff", "header" (Content-Type charset decoder) or
+// "raw" (body left as it was).
+func VerifAutoDecodeState(rc io.ReadCloser) (kind string, detected bool, hasDecoder bool, peekLen int, peekNil bool) {
+	switch b := rc.(type) {
+	case *autoDecodeReadCloser:
+		return "sniff", b.detected, b.decodeReader != nil, len(b.peek), b.peek == nil
+	case *decodeReaderCloser:
+		return "header", false, true, 0, true
+	}
+	return "raw", false, false, 0, true
+}
+
+// VerifTextContentTypes is the default table of content-type fragments selected for auto-decoding.
+func VerifTextContentTypes() []string { return append([]string(nil), textContentTypes...) }
+
+// VerifWithBodyWrap returns a context carrying a response-body wrapper that the transport installs
+// underneath the charset auto-decoder (the mechanism used by the download callback).
+func VerifWithBodyWrap(ctx context.Context, wrap func(io.ReadCloser) io.ReadCloser) context.Context {
+	return context.WithValue(ctx, wrapResponseBodyKey, wrapResponseBodyFunc(wrap))
+}
